@@ -47,6 +47,17 @@ def gen_cases(tier, seed):
                         # ... and a request sent through send_request with a timeout of its own: after a pending reply the server's P2* still applies
                         h.call(1, [0x3E, 0, 0, 0, rnd.choice([64000000, 2000000])], [b''], [(7, b'\x7f\x3e\x78')])
                         yield h.case(5000, 'systematic %s' % kname)
+    # the edition / the use of server timing changed at run time between two session changes: what was adopted stays in force under 2006
+    # or with server timing off, and is replaced under a later edition with server timing on
+    good = bytes([0x50, 3, 0x00, 0x32, 0x00, 0xC8])
+    for std1, use1 in ((2020, 1), (2013, 1), (2006, 1), (2020, 0)):
+        for slot, v in ((cl.STD, 2006), (cl.STD, 2013), (cl.USE_SRV, 0), (cl.USE_SRV, 1), (cl.STD, 2020)):
+            for second in (bytes([0x50, 1]), bytes([0x50, 1, 0x01, 0x00, 0x02, 0x00]), bytes([0x50, 1, 0x01, 0x00]), b'\x7f\x10\x22'):
+                cfgv = list(cl.DEFAULT_CFG)
+                cfgv[cl.STD], cfgv[cl.USE_SRV] = std1, use1
+                h = cl.H(cfgv).call(2, [3], [], [(100, good)]).set_cfg(slot, v).call(2, [1], [], [(100, second)])
+                h.call(6, [], [], []).call(7, [1], [], [(7, b'\x7f\x11\x78')])
+                yield h.case(5000, 'configuration changed between two session changes')
     n, m = (2000, 12) if tier == 'quick' else (100000, 40)
     for _ in range(n):
         h, tags = histgen.gen_history(rnd, m, invs, p_stale=0.05, sessions=0.35)
